@@ -241,3 +241,33 @@ class RaggedSlice(Family):
         ctx.prove("post.result gathers the window addresses", out.ravel().get(t) == g.D.fn(rec["idx"].fn(t)))
         ctx.prove("post.result has the window shape", z3.BoolVal(out._shape is rec["shape"].obj))
         ctx.prove("post.operand not modified", z3.BoolVal(g.D.buf.writes == 0))
+
+
+@register
+class Nonzero(Family):
+    """nonzero: the (row, column) coordinates of the non-zero cells in row-major (= flat) order"""
+    name = "RaggedArray.nonzero"
+    qualname = "npstructures.raggedarray:RaggedArray.nonzero"
+    serves = ["C08"]
+    assumed = ["numpy.flatnonzero contract", "numpy.searchsorted on the sorted row starts"]
+
+    def extra_functions(self):
+        return ["ViewBase.unravel_multi_index", "RaggedBase.ravel"]
+
+    def run(self, ctx, kind):
+        g = sym_ragged(ctx, kind="int")
+        rows, cols = g.ra.nonzero()
+        nz = ctx.ghost["nonzero_facts"][-1]
+        ctx.prove("post.one coordinate pair per non-zero cell", z3.And(dim_term(rows.shape_[0]) == nz.cnt, dim_term(cols.shape_[0]) == nz.cnt))
+        t = z3.Int("t")
+        ctx.skolem(z3.And(0 <= t, t < nz.cnt))
+        R, C = rows.get(t), cols.get(t)
+        ctx.add_index(t, t + 1, nz.pos(t), R, R + 1, R - 1, g.n - 1)
+        ctx.prove("post.row exists and column lies inside it", z3.And(0 <= R, R < g.n, 0 <= C, C < g.L(R)))
+        ctx.prove("post.the cell is non-zero", g.D.fn(g.S(R) + C) != 0)
+        ctx.prove("post.flat position of pair t is the t-th non-zero position", g.S(R) + C == nz.pos(t))
+        ctx.prove("post.row-major order (flat positions increase)", z3.Implies(t + 1 < nz.cnt, nz.pos(t) < nz.pos(t + 1)))
+        p = z3.Int("p")
+        ctx.skolem(z3.And(0 <= p, p < g.S(g.n), g.D.fn(p) != 0))
+        ctx.add_index(p, nz.rk(p))
+        ctx.prove("post.every non-zero cell is listed", z3.And(0 <= nz.rk(p), nz.rk(p) < nz.cnt, nz.pos(nz.rk(p)) == p))
